@@ -1,2 +1,77 @@
-From BMC Require Import Base.
-Theorem C16_placeholder : True. Proof. exact I. Qed.
+(* C16 — Paged enumerations are complete, ordered and terminate.
+   Models (Proc.v, run against the Go code by the C16 check on every generated server):
+   [parse_records] = parseCipherSuiteRecordData, [retrieve_chunks]/[retrieve_cipher_suites] =
+   RetrieveSupportedCipherSuites, [entity_instances]/[get_sensor_info] = dcmi.GetSensorInfo.
+   Specification side (EnumProofs.v): a record [csspec] (ID, optional OEM IANA, authentication algorithm,
+   integrity and confidentiality algorithm lists), its wire encoding [encode_records] (IPMI v2.0 table 22-19),
+   [expand] = one entry per (integrity, confidentiality) combination in order (an absent list counts as
+   the single algorithm 0, as in the Go code), [chunks16] = the only split the protocol allows (16-byte
+   chunks, the last one shorter, empty when the length is a multiple of 16), [page_server ids p] = a BMC
+   holding [ids] for an entity and serving them [p] per response. *)
+From BMC Require Import Base Prim Proc Dispatch EnumProofs EnumTermination PipelineTotal.
+From BMCProps Require Import Tie.
+
+(* ---- cipher suites ---- *)
+Theorem C16_cipher_suites_complete_ordered : forall rs, Forall wf rs -> (length (encode_records rs) < 16 * 64)%nat ->
+  retrieve_cipher_suites (serve_chunks (map Some (chunks16 (encode_records rs)))) = Some (RsOk (flat_map expand rs)).
+Proof. exact retrieve_cipher_suites_encoded. Qed.
+Theorem C16_chunks_rejoined : forall data, (length data < 16 * 64)%nat ->
+  retrieve_chunks (serve_chunks (map Some (chunks16 data))) 0 65 [] 0 = Some (data, S (length data / 16)).
+Proof. exact retrieve_all. Qed.
+Theorem C16_chunks16_is_the_protocol_split : forall data,
+  concat (chunks16 data) = data /\ length (chunks16 data) = (length data / 16 + 1)%nat.
+Proof. intros data. split; [apply chunks16_concat|apply chunks16_length]. Qed.
+Theorem C16_parse_of_encoding : forall rs, Forall wf rs ->
+  parse_records (length (encode_records rs)) (encode_records rs) [] = RsOk (flat_map expand rs).
+Proof. exact parse_encode. Qed.
+(* an error, not a partial list: whatever is accepted is the encoding of well-formed records and the
+   result is their full expansion; nothing else is accepted *)
+Theorem C16_only_encodings_parse : forall n bs out, Forall (fun b => b < 256) bs ->
+  parse_records n bs [] = RsOk out ->
+  exists rs, Forall wf rs /\ bs = encode_records rs /\ out = flat_map expand rs.
+Proof. exact parse_sound_partial. Qed.
+Theorem C16_truncated_record_is_error : forall f r n acc, (0 < n)%nat -> (n < length (encode_header r) + 1)%nat ->
+  parse_records (S f) (firstn n (encode_record r)) acc = RsErr.
+Proof. exact parse_truncated_record. Qed.
+Theorem C16_bad_tag_is_error : forall f b r acc, b <> 0xC0 -> b <> 0xC1 -> parse_records (S f) (b :: r) acc = RsErr.
+Proof. exact parse_bad_tag. Qed.
+Theorem C16_parser_total : forall joined acc,
+  parse_records (length joined) joined acc <> RsFault /\ parse_records (length joined) joined acc <> RsOutOfFuel.
+Proof. exact parse_records_total. Qed.
+(* termination whatever the BMC serves: at most 65 requests, and more fuel changes nothing *)
+Theorem C16_chunk_loop_terminates : forall serve fuel, (65 <= fuel)%nat ->
+  retrieve_chunks serve 0 fuel [] 0 = retrieve_chunks serve 0 65 [] 0.
+Proof. exact retrieve_chunks_terminates. Qed.
+Theorem C16_chunk_loop_at_most_65_requests : forall serve out n,
+  retrieve_chunks serve 0 65 [] 0 = Some (out, n) -> (n <= 65)%nat.
+Proof. exact retrieve_chunks_at_most_65. Qed.
+
+(* ---- DCMI sensor info ---- *)
+Theorem C16_entity_all_ids_in_order : forall ids p, (length ids <= 255)%nat -> (1 <= p)%nat ->
+  get_entity_instances (page_server ids p) = Some (ids, Nat.max 1 (ceil_div (length ids) p)).
+Proof. exact get_entity_instances_paged. Qed.
+Theorem C16_sensor_info_paged : forall (tbl : N -> list N) p, (1 <= p)%nat -> (forall e, (length (tbl e) <= 255)%nat) ->
+  get_sensor_info (fun e => page_server (tbl e) p) =
+  Some (match tbl 0x37 ++ tbl 0x03 ++ tbl 0x07 with [] => map tbl dcmi_entities | _ => map tbl ipmi_entities end).
+Proof. exact get_sensor_info_paged. Qed.
+(* the DCMI-specific entity IDs are used exactly when the standard ones fail or yield nothing *)
+Theorem C16_fallback_exactly_when : forall serve,
+  (exists l1 r1 l2 r2 l3 r3,
+      get_entity_instances (serve 0x37) = Some (l1, r1) /\ get_entity_instances (serve 0x03) = Some (l2, r2) /\
+      get_entity_instances (serve 0x07) = Some (l3, r3) /\ l1 ++ l2 ++ l3 <> [] /\
+      get_sensor_info serve = Some [l1; l2; l3])
+  \/ (((exists e, In e ipmi_entities /\ get_entity_instances (serve e) = None) \/
+       (exists r1 r2 r3, get_entity_instances (serve 0x37) = Some ([], r1) /\
+                         get_entity_instances (serve 0x03) = Some ([], r2) /\
+                         get_entity_instances (serve 0x07) = Some ([], r3)))
+      /\ get_sensor_info serve = sensor_map serve dcmi_entities).
+Proof. exact get_sensor_info_cases. Qed.
+Theorem C16_page_loop_terminates : forall serve fuel, byte_totals serve -> (256 <= fuel)%nat ->
+  entity_instances serve [] fuel 0 = get_entity_instances serve.
+Proof. exact entity_instances_terminates. Qed.
+Theorem C16_page_loop_at_most_256_requests : forall serve out n,
+  get_entity_instances serve = Some (out, n) -> (n <= 256)%nat.
+Proof. exact entity_instances_at_most_256. Qed.
+Theorem C16_entity_ids_tie : G.ipmiSensorEntityIDs = ipmi_entities /\ G.dcmiSensorEntityIDs = dcmi_entities /\
+  G.EntityIDAirInlet = 0x37 /\ G.EntityIDProcessor = 0x03 /\ G.EntityIDSystemBoard = 0x07.
+Proof. repeat split; reflexivity. Qed.
